@@ -94,6 +94,28 @@ def execute(case):
                 log(ev="cancelled", c=c)
                 raise
 
+        async def gate_in_handshake(c):
+            """the same gate, but the component waits at it inside `await start_service_task(...)`: the service function calls
+            task_status.started() only once the gate has opened (a slow start handshake)"""
+            if state.get("over"):
+                return
+            ev = Event()
+            at_gate[c] = ev
+            abandoned = []
+
+            async def service(*, task_status):
+                await ev.wait()
+                if not abandoned:
+                    task_status.started()
+            try:
+                await start_service_task(service, f"handshake-{c}-{len(state['values'])}-{id(ev):x}")
+            except C:
+                at_gate.pop(c, None)
+                abandoned.append(1)
+                ev.set()
+                log(ev="cancelled", c=c)
+                raise
+
         def actual_name(op, value, T0):
             outer = state["outer"]
             if op["x"] in ("res", "res2"):
@@ -141,7 +163,10 @@ def execute(case):
                 add_teardown_callback(lambda: log(ev="td", id=ident))
                 log(ev="reg", id=ident)
                 for ip, op in enumerate(script, start=1):
-                    await gate(c)
+                    if op["k"] == "noop" and (case.get("seed", 0) + c) % 4 == 2:
+                        await gate_in_handshake(c)
+                    else:
+                        await gate(c)
                     log(ev="step", c=c)
                     if fc == c and fphase == ("preparing" if ph == "prep" else "starting") and ip == len(script):
                         x = make_boom(ph)
